@@ -92,6 +92,12 @@ def check_C11(tier, seed):
     if p.returncode != 0:
         raise RuntimeError("pretty harness build failed:\n" + p.stdout[-3000:])
     binp = os.path.join(tgt, "debug", "vfpretty")
+    # the runtime can be built without the `colored` dependency (default-features = false): its stand-in is a third rendering
+    tgt_nc = os.path.join(build.WORK, "tgt", "pretty_nc")
+    p2 = build.cargo_build(os.path.join(build.rust_dir(), "pretty"), tgt_nc, extra=["--no-default-features"])
+    binp_nc = os.path.join(tgt_nc, "debug", "vfpretty") if p2.returncode == 0 else None
+    if binp_nc is None:
+        out.inconc("harness build without the colored feature failed")
     maxlen = 4 if tier == "quick" else 5
     cases = []
     for n in range(0, maxlen + 1):
@@ -136,14 +142,14 @@ def check_C11(tier, seed):
     coloured_outputs = 0
     # two renderings of every case: plain, and with colours forced on (what build scripts and terminals show); the
     # oracle reads the coloured one with the escape sequences removed - the caret must still be under the column
-    for mode in ("plain", "colour"):
+    for mode in ("plain", "colour") + (("no-colour-build",) if binp_nc else ()):
         env = dict(build.BASE_ENV)
         env.pop("NO_COLOR", None)
         if mode == "colour":
             env["CLICOLOR_FORCE"] = "1"
         else:
             env["NO_COLOR"] = "1"
-        pr = subprocess.run([binp, cf, of], env=env, timeout=1800)
+        pr = subprocess.run([binp_nc if mode == "no-colour-build" else binp, cf, of], env=env, timeout=1800)
         if pr.returncode != 0:
             raise RuntimeError("pretty harness died rc=%s" % pr.returncode)
         with open(of) as f:
@@ -159,12 +165,12 @@ def check_C11(tier, seed):
                     # one witness per class: (class, position relative to its line: start / end / middle / empty text)
                     ln, col, the_line = expected(t, pos)
                     where = "empty-text" if t == "" else ("line-start" if col == 1 and ln > 1 else ("line-end" if col == len(the_line) + 1 else "inside"))
-                    key = "%s:%s%s" % (sig, where, ":colour" if mode == "colour" else "")
+                    key = "%s:%s%s" % (sig, where, "" if mode == "plain" else ":" + mode)
                     if key not in seen_sig:
                         seen_sig[key] = True
                         out.violation("pretty:" + key, "%s (text %r, position %d, file %r, %s rendering)" % (msg, t[:60], pos, fn, mode),
                                       {"text": t[:2000], "position": pos, "file": fn, "mode": mode, "observed": line[:2000], "expected": {"line": ln, "column": col, "source_line": the_line[:500]}})
-    out.coverage["renderings"] = {"plain": len(cases), "colour_forced": len(cases), "outputs_with_escape_sequences": coloured_outputs}
+    out.coverage["renderings"] = {"plain": len(cases), "colour_forced": len(cases), "outputs_with_escape_sequences": coloured_outputs, "built_without_colored_feature": len(cases) if binp_nc else 0}
     if coloured_outputs == 0:
         out.inconc("colour rendering not observed (forcing colours produced no escape sequences)")
     out.samples = [{"text": t, "position": pos, "file": fn} for (t, pos, fn) in (cases[5], cases[4000 % len(cases)], cases[-1])]
@@ -172,7 +178,7 @@ def check_C11(tier, seed):
     out.coverage["bounded_exhaustive"] = {"alphabet": ALPHA, "max_len": maxlen, "cases": n_exh}
     out.coverage["random_long_texts"] = len(cases) - n_exh
     rule = ("all strings of length <= %d over {a, é, 😀, space, tab, \\n, \\r} x all boundary positions 0..=len x {no file, file name (len<=3)} (exhaustive for that bound), "
-            "plus random multi-line texts (LF and CRLF, lines up to %d chars) at positions 0 / len / just before and after newlines / random; oracle = the definition in the statement; every case rendered plain and with colours forced (escape sequences removed before judging). "
+            "plus random multi-line texts (LF and CRLF, lines up to %d chars) at positions 0 / len / just before and after newlines / random; oracle = the definition in the statement; every case rendered plain, with colours forced (escape sequences removed before judging), and by a build of the runtime without its `colored` feature. "
             "Non-trivial: text has a newline or a multi-byte character; distinct (text, position, file).") % (maxlen, 500 if tier == "quick" else 2000)
-    return out.finish(2 * len(cases), len(nontriv), rule, exhaustive=False, floor=100,
+    return out.finish((3 if binp_nc else 2) * len(cases), len(nontriv), rule, exhaustive=False, floor=100,
                       extra={"exhaustive_part": True})
